@@ -238,7 +238,99 @@ pub fn generate_c09(seed: u64, tier: &str, sink: &mut Sink) {
 pub fn generate_c10(seed: u64, tier: &str, sink: &mut Sink) {
     let n = if tier == "thorough" { 20_000 } else { 1500 };
     real_socket_chains(sink);
+    write_fault_chains(seed ^ 0xFA17, if tier == "thorough" { 2000 } else { 200 }, sink);
     generate_chains(seed ^ 0xC10, n, false, false, sink)
+}
+
+/// A connection that breaks while the request is being written (broken pipe, reset, abort, timeout) although a
+/// complete redirecting response is readable on it: "each request sent while following redirects is itself a
+/// complete well-formed request" — a hop whose request was cut short is not followed by another hop, whatever
+/// was readable (seed C10-seed11: the early answer of a server that stopped reading the upload is used, and if
+/// it is a redirect, followed). The unchanged code ends the exchange with the write error.
+fn write_fault_chains(seed: u64, n: usize, sink: &mut Sink) {
+    let mut rng = Rng::new(seed);
+    for _ in 0..n {
+        let size = *rng.pick(&[3000usize, 9000, 20_000, 70_000]);
+        let fill: Vec<u8> = (0..size).map(|i| b"0123456789abcdef"[i % 16]).collect();
+        let body = match rng.below(6) {
+            0 => BodyR::Text(String::from_utf8(fill.clone()).unwrap()),
+            1 => BodyR::Bytes(fill.clone()),
+            2 => BodyR::File(fill.clone()),
+            3 => BodyR::Custom { kind: CustomKind::Chunked, ctype: None, writes: fill.chunks(1000).map(|c| c.to_vec()).collect() },
+            4 => BodyR::Custom { kind: CustomKind::Known(size as u64), ctype: None, writes: fill.chunks(4096).map(|c| c.to_vec()).collect() },
+            _ => BodyR::Multipart { texts: vec![("a".into(), "b".into())], files: vec![("f".into(), fill.clone(), Some("f.bin".into()), None)] },
+        };
+        let nhops = rng.range(2, 4) as usize;
+        let status = *rng.pick(&[307u16, 308, 307, 308, 301, 302, 303]);
+        let mut hops = vec![];
+        for i in 0..nhops {
+            if i + 1 == nhops {
+                hops.push((vec![Seg::Data(response(200, None))], None));
+            } else {
+                let loc = format!("http://next{}.test/n{}", i, i).into_bytes();
+                hops.push((vec![Seg::Data(response(status, Some(&loc)))], Some(loc)));
+            }
+        }
+        // which connection breaks, and after how many bytes: inside the head, at the start of the body, in its
+        // middle, with one byte to go
+        let fi = rng.below(nhops as u64 - 1) as usize;
+        let after = match rng.below(4) {
+            0 => rng.range(1, 60) as usize,
+            1 => 400,
+            2 => size / 2,
+            _ => size - 1,
+        };
+        let kind = *rng.pick(&[5u8, 5, 3, 4, 2]);
+        let case = SendCase {
+            method: rng.pick(&["POST", "PUT"]).to_string(),
+            url: "http://start.test/upload?id=7".into(),
+            follow: true,
+            max_redirections: 5,
+            max_headers: 100,
+            compress: false,
+            proxy: ProxyCfg { http: None, https: None, no_proxy: vec![] },
+            params: vec![],
+            pre: vec![],
+            body,
+            post: vec![],
+            hops,
+            plain_tunnel: false,
+        };
+        set_write_fault(Some((fi, after, kind)));
+        let obs = run_send(&case);
+        set_write_fault(None);
+        let tag = body_tag(&case.body);
+        let o: Result<(), (String, String)> = (|| {
+            if matches!(obs.fin, FinalObs::Panic) {
+                return Err((format!("panic-{}", tag), "panic".into()));
+            }
+            // the scenario is only what it says if the faulted connection was reached and did break
+            if obs.hops.len() <= fi {
+                return Err((format!("hop-count-{}", tag), format!("{} connections, the fault sits on #{}; final {:?}", obs.hops.len(), fi, obs.fin)));
+            }
+            for (i, h) in obs.hops.iter().enumerate() {
+                if i + 1 < obs.hops.len() {
+                    // a hop that was followed by another: its request went out whole
+                    if let Err(e) = spec::parse_request(&h.written) {
+                        return Err((format!("followed-after-broken-request-{}", tag), format!("connection #{} broke for writing ({:?} after {} bytes), what it carries is not a complete request ({}), and the redirect read from it was followed all the same: {} connections, final {:?}", i, crate::script::kind_of(kind), after, e, obs.hops.len(), obs.fin)));
+                    }
+                }
+            }
+            if obs.hops.len() != fi + 1 {
+                return Err((format!("hop-count-{}", tag), format!("{} connections although #{} broke for writing; final {:?}", obs.hops.len(), fi, obs.fin)));
+            }
+            match &obs.fin {
+                FinalObs::Err(_) => Ok(()),
+                f => Err((format!("write-error-lost-{}", tag), format!("the request on connection #{} was cut short by {:?} after {} bytes and send() ended {:?}", fi, crate::script::kind_of(kind), after, f))),
+            }
+        })();
+        sink.push(Case {
+            tags: vec!["mode=write-fault".into(), format!("body={}", tag), format!("fault-hop={}", fi), format!("fault-kind={}", kind), format!("status={}", status)],
+            op: format!("nop write-fault {} {} {}", fi, after, kind),
+            impl_line: "nop".into(),
+            oracle: o,
+        });
+    }
 }
 
 /// Redirect chains over REAL sockets (the scripted connections sit above the dial, so what the connection code
